@@ -115,9 +115,112 @@ def sparse_mask_W_empty(case):
     return case["wkind"] == "sptensor" and len(case["wsubs"]) == 0
 
 
+# -- ttv: a bare vector (not wrapped in a list) is recognised by the Python/NumPy type of its first entry; only int,
+#    float, np.int64 and np.float64 are on the list, so a bare int32 / uint8 / float32 vector is taken for a list ------
+NARROW = ("int32", "uint8", "float32", "int16", "int8", "uint16")
+
+
+def bare_vector_narrow_dtype(case):
+    for step in ([case] + list(case.get("steps") or [])):
+        des = step.get("des")
+        if des and des.get("form") in ("int", "npint") and ((step.get("vdtypes") or [None])[0] or "").split("@")[0] in NARROW \
+                and step.get("op", "ttv") == "ttv":
+            return True
+    return False
+
+
+# -- sumtensor.ttv over all modes adds up the parts' scalars only when they are Python floats: a part that stores
+#    integers and meets integer vectors contracts to a Python int --------------------------------------------------
+def _is_int(dt):
+    return dt is not None and dt.split("@")[0] != "float64"
+
+
+def _part_contracts_to_int(p):
+    if p["holder"] in ("tensor", "sptensor"):
+        # a sparse part without stored entries has float64 (empty) values whatever the case asked for
+        return _is_int(p.get("dtype")) and (p["holder"] == "tensor" or len(p["subs"]) > 0)
+    if p["holder"] == "ttensor":
+        return _is_int(p.get("cdtype")) and all(_is_int(d) for d in (p.get("fdtypes") or [None]))
+    return False
+
+
+def sum_full_contraction_with_integer_part(case):
+    X = case.get("X")
+    if not X or X.get("holder") != "sumtensor" or not any(_part_contracts_to_int(p) for p in X["parts"]):
+        return False
+    if "calls" in case:  # sequence cells: one vector list for all calls
+        return any(c["op"] == "ttv" and c.get("sel") is None for c in case["calls"]) and all(
+            _is_int(d) for d in case.get("vdtypes") or [None])
+    for step in ([case] + list(case.get("steps") or [])):
+        des = step.get("des")
+        if not des or step.get("op", "ttv") != "ttv":
+            continue
+        full = des["form"] == "all" or (step is case and len(des["sel"]) == len(X["shape"]))
+        if full and all(_is_int(d) for d in (step.get("vdtypes") or [None])):
+            return True
+    return False
+
+
+# -- sumtensor.mttkrp accumulates with `result += ...`: an integer first summand cannot take a float one -------------
+def _part_mttkrp_is_int(p, u, n):
+    if u.get("kind") != "list":
+        return False
+    fd = u.get("fdtypes") or [None] * len(p["shape"])
+    if not all(_is_int(d) for k, d in enumerate(fd) if k != n):
+        return False
+    return _part_contracts_to_int(p)
+
+
+def sum_mttkrp_integer_first_part_then_float(case):
+    X, u = case.get("X"), case.get("U")
+    if not X or X.get("holder") != "sumtensor" or not u or len(X["parts"]) < 2:
+        return False
+    ns = [case["n"]] if case.get("n") is not None else [c["n"] for c in case.get("calls") or [] if c["op"] == "mttkrp"]
+    return any(_part_mttkrp_is_int(X["parts"][0], u, n) and not all(_part_mttkrp_is_int(p, u, n) for p in X["parts"][1:])
+               for n in ns)
+
+
+# -- sptensor.scale by a sparse factor multiplies the stored values by factor[subs], which is a Python number when the
+#    receiver stores one entry: for unsigned data and a negative factor entry NumPy refuses the Python int ----------
+def unsigned_one_entry_receiver_negative_sparse_factor(case):
+    X = case.get("X") or {}
+    return (X.get("holder") == "sptensor" and X.get("dtype") == "uint8" and len(X["subs"]) == 1
+            and case.get("fkind") == "sptensor" and any(v < 0 for v in case.get("fdata") or []))
+
+
+# -- boolean (indicator) tensors ---------------------------------------------------------------------------------------
+def both_operands_boolean(case):
+    """innerprod of two boolean operands: x.dot(y) on boolean arrays is the logical OR of ANDs, not the sum"""
+    return case.get("op") in ("innerprod-self", "innerprod-bool")
+
+
+def dense_boolean_through_tenmat(case):
+    """dense kernels that matricise the receiver: tenmat's constructor rejects boolean data (tensor's accepts it)"""
+    return case.get("kind") == "tensor" and case.get("op") in ("collapse", "scale", "ttt")
+
+
+def sparse_boolean_collapse_into_one_cell(case):
+    """sptensor.collapse hands the boolean values to numpy_groupies.aggregate, whose sum stays boolean when it is
+    asked for a single output cell: a result vector of length one, or (multiway result) every stored entry falling
+    into the same result cell"""
+    if case.get("kind") != "sptensor" or case.get("op") != "collapse":
+        return False
+    shape, m = case["shape"], case["mode"]
+    rem = [n for d, n in enumerate(shape) if d != m]
+    if len(rem) == 1:
+        return rem[0] == 1
+    import numpy as np
+
+    A = np.reshape(np.array(case["bits"], dtype=float), tuple(shape), order="F").sum(axis=m)
+    return int(np.count_nonzero(A)) == 1
+
+
 PREDICATES = {f.__name__: f for f in (
     kruskal_ttv_selected_singleton, oneway_sparse_operand, sparse_operand_with_one_nonzero,
     receiver_sparse_one_nonzero_dense_factor, receiver_sparse_empty, receiver_sparse_empty_all_modes_collapsed,
     collapse_custom_reducer_one_nonzero, tucker_receiver_weighted_kruskal_operand, weighted_kruskal_operand,
-    sparse_mask_misplaces, sparse_mask_receiver_empty, sparse_mask_W_empty,
+    sparse_mask_misplaces, sparse_mask_receiver_empty, sparse_mask_W_empty, bare_vector_narrow_dtype,
+    sum_full_contraction_with_integer_part, sum_mttkrp_integer_first_part_then_float,
+    unsigned_one_entry_receiver_negative_sparse_factor, both_operands_boolean, dense_boolean_through_tenmat,
+    sparse_boolean_collapse_into_one_cell,
 )}
